@@ -436,6 +436,7 @@ type exported struct {
 	Samples    []interface{}       `json:"samples"`
 	Violations []childViolation    `json:"violations"`
 	Inconcl    []string            `json:"inconclusive"`
+	Complete   bool                `json:"complete"`
 }
 
 // NewChildRun creates a Run for a worker process: Violation only records.
@@ -469,6 +470,7 @@ func (r *Run) ExportTo(path string) error {
 		}
 	}
 	e.Violations, _ = r.extra["__viol"].([]childViolation)
+	e.Complete, _ = r.extra["__complete"].(bool)
 	b, err := json.Marshal(e)
 	if err != nil {
 		return err
@@ -476,16 +478,25 @@ func (r *Run) ExportTo(path string) error {
 	return ioutil.WriteFile(path, b, 0644)
 }
 
+// MarkComplete flags a worker's export as final (the worker ran to its end).
+func (r *Run) MarkComplete() { r.Extra("__complete", true) }
+
 // Import merges a worker's export into the parent run.
 func (r *Run) Import(path string) error {
+	_, err := r.importFile(path)
+	return err
+}
+
+func (r *Run) importFile(path string) (complete bool, err error) {
 	b, err := ioutil.ReadFile(path)
 	if err != nil {
-		return err
+		return false, err
 	}
 	var e exported
 	if err := json.Unmarshal(b, &e); err != nil {
-		return err
+		return false, err
 	}
+	complete = e.Complete
 	r.mtx.Lock()
 	for k, v := range e.Counters {
 		r.counters[k] += v
@@ -510,7 +521,7 @@ func (r *Run) Import(path string) error {
 	for _, v := range e.Violations {
 		r.Violation(v.Key, v.What, v.Witness)
 	}
-	return nil
+	return complete, nil
 }
 
 // RunWorkers re-executes the current binary `workers` times with arguments
@@ -538,11 +549,16 @@ func (r *Run) RunWorkers(workers int, watchdog time.Duration, extra []string, on
 				r.Inconclusive(fmt.Sprintf("worker %d hit the %v watchdog", i, watchdog))
 				return
 			}
-			if ierr := r.Import(out); ierr != nil {
+			complete, ierr := r.importFile(out)
+			if ierr != nil || !complete {
+				// the worker died (no export, or only the partial export it wrote before a later case killed it)
+				if in, e2 := ioutil.ReadFile(out + ".inputs"); e2 == nil {
+					output += "\n--- last logged inputs ---\n" + tail(string(in), 3000)
+				}
 				if onCrash != nil {
-					onCrash(i, tail(output, 4000))
+					onCrash(i, tail(output, 8000))
 				} else {
-					r.Inconclusive(fmt.Sprintf("worker %d produced no result (%v): %s", i, err, tail(output, 300)))
+					r.Inconclusive(fmt.Sprintf("worker %d did not finish (%v): %s", i, err, tail(output, 300)))
 				}
 			}
 		}(i)
